@@ -327,7 +327,8 @@ static cfg_opt_t *cfg_getopt_secidx(cfg_t *cfg, const char *name,
 			}
 
 			i = strtol(title, &endptr, 0);
-			if (*endptr != '\0')
+			/* the index ends up in an unsigned int: 4294967296 is not instance 0 */
+			if (*endptr != '\0' || i < 0 || (unsigned long)i >= cfg_opt_size(opt))
 				i = -1;
 		} while(0);
 
